@@ -3,6 +3,7 @@ package main
 import (
 	"encoding/json"
 	"fmt"
+	"io"
 	"math"
 	"os"
 	"path/filepath"
@@ -222,6 +223,27 @@ func runPlot(t *simrt.Tape, keep bool) simrt.Outcome {
 	sample := map[string]any{"attacks": nattacks, "results_per_attack": sizes, "files": len(paths), "arrival_order": []string{"sequence order", "local disorder", "arbitrary permutation"}[shuffle], "threshold": threshold}
 	if shuffle > 0 {
 		r.stats["fault.out-of-order-arrival"]++
+	}
+	if t.Prob(1, 4) {
+		// an interrupted plot command: it stops reading at some record, closes the plot and writes what it has.
+		// Whatever was read so far, in whatever order, that must not crash (series may exist whose points are all
+		// still waiting for an earlier sequence number).
+		cutAt := t.Choose(len(order) + 1)
+		r.guard("plot closed after a prefix of the results", func() {
+			p := plot.New(plot.Title("sim"), plot.Downsample(0), plot.Label(plot.ErrorLabeler))
+			for _, idx := range order[:cutAt] {
+				res := all[idx]
+				if p.Add(&res) != nil {
+					return
+				}
+			}
+			p.Close()
+			p.WriteTo(io.Discard)
+		})
+		r.stats["fault.plot-interrupted"]++
+		if r.viol != nil {
+			return r.outcome(sample, true)
+		}
 	}
 	var err error
 	if t.Prob(1, 3) {
